@@ -46,6 +46,7 @@ type histStep struct {
 	NoClobber bool   `json:"noclobber,omitempty"`
 	NilOpts   bool   `json:"nilopts,omitempty"`
 	Second    bool   `json:"second,omitempty"` // use a second FileSystem instance on the same directory
+	Dir       string `json:"dir,omitempty"`    // configure the instance with this directory before the call
 }
 
 func cmdStoreHist(args []string) int {
@@ -74,6 +75,9 @@ func cmdStoreHist(args []string) int {
 		inst := be
 		if st.Second {
 			inst = be2
+		}
+		if st.Dir != "" {
+			inst.Options.Path = st.Dir
 		}
 		fmt.Printf("STEP %d BEGIN\n", i)
 		switch st.Op {
